@@ -71,3 +71,19 @@ package openapi3gen
 //@   ensures @C18 [string-kind] old(plainScalar(g, t)) && kindOf(t) == reflect.String ==> (result.1 == nil) == stringSchema(result.0)
 //@   option safety-tags none
 //@   tag C18
+
+// ---- C18: the schema cache is keyed by the type itself. nullable, and everything else a schema
+// says, belongs to one Go type: a schema generated for T must never be served for *T (or any other
+// type), and what is generated for t is stored under t.
+//@ spec generatedFor(t reflect.Type, name string) *openapi3.SchemaRef
+//@ spec generationFails(t reflect.Type, name string) bool
+//@ extend func (*Generator).generateWithoutSaving
+//@   defines result.0 == generatedFor(t, name) && ((result.1 != nil) <==> generationFails(t, name))
+//@ func (*Generator).generateSchemaRefFor
+//@   requires g != nil
+//@   assuming !wlocked[ptr(typeInfosMutex)] && rlocked[ptr(typeInfosMutex)] == 0 && t != nil && g.Types != nil && g.SchemaRefs != nil
+//@   modifies *
+//@   ensures @C18 [cached-schema-is-the-one-generated-for-this-type] old(g.Types[t]) != nil && old(g.opts.schemaCustomizer) == nil ==> result.0 == old(g.Types[t]) && result.1 == nil
+//@   ensures @C18 [miss-generates-for-this-type] (old(g.Types[t]) == nil || old(g.opts.schemaCustomizer) != nil) && !generationFails(t, name) ==> result.0 == generatedFor(t, name)
+//@   option safety-tags none
+//@   tag C18
